@@ -1458,3 +1458,22 @@ Example budget_example :
   | _ => False
   end.
 Proof. vm_compute. auto. Qed.
+
+(* the same, stated with the model's [get] (needs the structural invariant for the waker map) *)
+Theorem resolution_completes_on_add_get P c k i ch t0 ws now v :
+  Inv c -> waiting P c k i ch t0 ws -> now <= t0 + p_age P -> v <> 0 ->
+  exists c', add P c now k v = Some (c', map (Notify (Some ch)) ws ++ [Close ch]) /\
+    (forall now' res w', now' <= t0 + p_age P -> no_static res ->
+       exists c'', get P c' now' k res w' = Some (c'', GAddr v, [])) /\
+    (forall now' att, now' <= t0 + p_age P ->
+       exists c'', checkLinkRequest P c' now' k att = Some (c'', true, [])).
+Proof.
+  intros I Wt Ht Hv.
+  destruct (resolution_completes_on_add P c k i ch t0 ws now v Wt Ht Hv) as (c' & A & G & C).
+  exists c'. split; [exact A|]. split; [|exact C].
+  intros now' res w' Hn NS.
+  assert (I' : Inv c').
+  { pose proof (step_inv P c (OAdd now k v) I) as H. cbn [step_p] in H.
+    rewrite add_ok in A. injection A as A. rewrite A in H. exact H. }
+  destruct (G now' res w' Hn NS) as (c'' & E). exists c''. rewrite get_ok by apply I'. rewrite E. reflexivity.
+Qed.
